@@ -717,7 +717,10 @@ func vRunLifeServer(c *vCase) {
 		ls := sc.lancero
 		card := vEndlessCard(rows, 2, uint64(r.Int63()))
 		card.backlog = func() int { return len(ls.buffersChan) }
-		ls.devices = map[int]*LanceroDevice{0: {devnum: 0, nrows: rows, lsync: 2000, clockMHz: 125, card: card}}
+		card1 := vEndlessCard(rows, 2, uint64(r.Int63()))
+		card1.backlog = func() int { return len(ls.buffersChan) }
+		ls.devices = map[int]*LanceroDevice{0: {devnum: 0, nrows: rows, lsync: 2000, clockMHz: 125, card: card},
+			1: {devnum: 1, nrows: rows, lsync: 2000, clockMHz: 125, card: card1}}
 		verifInstall(&verifHandlers{Duration: func(name string, d time.Duration) time.Duration {
 			if name == "lancero.readPeriod" {
 				return 5 * time.Millisecond
@@ -725,7 +728,7 @@ func vRunLifeServer(c *vCase) {
 			return d
 		}})
 		defer verifInstall(nil)
-		bad := &LanceroSourceConfig{ActiveCards: []int{vPick(r, 3, 1, 7)}, FirstRow: 1}
+		bad := &LanceroSourceConfig{ActiveCards: []int{vPick(r, 3, 5, 7)}, FirstRow: 1}
 		if err, ret := call(fmt.Sprintf("ConfigureLanceroSource(cards %v)", bad.ActiveCards), func() error { return sc.ConfigureLanceroSource(bad, &okay) }); !ret {
 			return
 		} else if err == nil {
@@ -749,6 +752,15 @@ func vRunLifeServer(c *vCase) {
 			return
 		}
 		time.Sleep(time.Duration(10+r.Intn(30)) * time.Millisecond)
+		// a configuration request while the source runs is refused and changes nothing: in particular not which cards Stop releases
+		other := &LanceroSourceConfig{ActiveCards: []int{1}, FirstRow: 1}
+		if err, ret := call("ConfigureLanceroSource(cards [1]) while the source runs on card 0", func() error { return sc.ConfigureLanceroSource(other, &okay) }); !ret {
+			return
+		} else if err == nil {
+			fail("c10:configure-accepted", "a Lancero configuration request was accepted while the source was running")
+			return
+		}
+		stoppedBefore := card.stopped
 		if err, ret := call("Stop()", func() error { return sc.Stop(&str, &okay) }); !ret {
 			return
 		} else if err != nil {
@@ -759,6 +771,11 @@ func vRunLifeServer(c *vCase) {
 			fail("c10:not-inactive-after-stop", "Stop has returned but the Lancero source is in state %v", st)
 			return
 		}
+		if card.stopped == stoppedBefore {
+			fail("c10:device-not-released", "Stop has returned but the card the source was running on (card 0) was never stopped (card 1, named by a refused request: stopped %d times)", card1.stopped)
+			return
+		}
+		c.Cov("device_release_checks", 1)
 		c.Cov("server_lancero_reconfigurations", 1)
 	}
 	c.Nontrivial()
